@@ -109,13 +109,13 @@ func (m *mon) derive() {
 				m.dequeueAt[ev.Owner] = d
 			}
 		}
-		if ev.Kind == "store" {
+		if ev.Kind == "store" || ev.Kind == "swap" {
 			fn, ex := siteFunc(ev.Site), siteExpr(ev.Site)
 			if fn == "job.changeStatus" && ev.Val == "2" {
 				m.dispatchAt[ev.Owner] = i
 			}
-			if strings.HasPrefix(fn, "worker.") && strings.HasPrefix(ex, "w.concurrency.Store") {
-				v, _ := strconv.Atoi(ev.Val)
+			if strings.HasPrefix(fn, "worker.") && (strings.HasPrefix(ex, "w.concurrency.Store") || strings.HasPrefix(ex, "w.concurrency.Swap")) && ev.Val != "" {
+				v, _ := strconv.Atoi(strings.Fields(ev.Val)[0])
 				m.concAt = append(m.concAt, sample{i, "conc", v, 0})
 			}
 			if strings.HasPrefix(fn, "worker.") && (strings.HasPrefix(ex, "w.status.Store") || strings.HasPrefix(ex, "w.status.CompareAndSwap")) {
@@ -272,16 +272,30 @@ func (m *mon) c02() {
 	// successful TunePool(n); a limit stays possibly in effect until the next TunePool has returned
 	type lim struct{ from, to, v int }
 	lims := []lim{{0, 1 << 60, m.e.conc}}
+	var tunes []*callRec
 	for _, c := range m.e.calls {
-		if c.name != "TunePool" || c.tRet < 0 || !strings.HasPrefix(c.res, "nil/") {
-			continue
+		if c.name == "TunePool" && c.tRet >= 0 && strings.HasPrefix(c.res, "nil/") {
+			tunes = append(tunes, c)
 		}
+	}
+	for _, c := range tunes {
 		n, _ := strconv.Atoi(c.arg)
 		if n < 1 {
 			n = runtime.NumCPU()
 		}
-		lims[len(lims)-1].to = c.tRet
-		lims = append(lims, lim{c.tCall, 1 << 60, n})
+		// the configured limit is replaced once any TunePool has returned; the limit of a TunePool
+		// call stays possibly in effect until a call that began after it had returned has returned
+		// (of two overlapping calls either may be the one that took effect last)
+		if c.tRet < lims[0].to {
+			lims[0].to = c.tRet
+		}
+		to := 1 << 60
+		for _, d := range tunes {
+			if d.tCall > c.tRet && d.tRet < to {
+				to = d.tRet
+			}
+		}
+		lims = append(lims, lim{c.tCall, to, n})
 	}
 	if m.e.conc < 1 {
 		lims[0].v = runtime.NumCPU()
@@ -742,6 +756,28 @@ func (m *mon) c09() {
 func (m *mon) c10() {
 	if !m.props["C10"] {
 		return
+	}
+	// a Purge removes what it is handed, nothing else: a job accepted around a Purge that the queue
+	// neither handed to the purger nor to a dispatcher, and that nobody cancelled, is lost
+	purges := false
+	for _, c := range m.e.calls {
+		if c.name == "Purge" {
+			purges = true
+		}
+	}
+	if purges && !m.s.Livelock && len(m.s.Panics) == 0 && m.finalWorkerStatus() == 1 && (!m.e.noFinalDrain || m.s.Hang) && len(m.e.adapters) == 0 {
+		inflight := 0
+		for _, s := range m.e.subs {
+			if len(s.tEnter) > len(s.tExit) {
+				inflight++
+			}
+		}
+		for _, s := range m.e.subs {
+			if s.accepted && len(s.tEnter) == 0 && !m.cancelledBeforeStart(s) && inflight == 0 {
+				m.add("C10", "purge-lost", "job d%d (q%d) was accepted around a Purge; at rest it was neither handed to the purger nor dispatched nor cancelled, and nothing is in flight", s.data, s.q)
+				break
+			}
+		}
 	}
 	for _, s := range m.e.subs {
 		if len(s.closeNil) > 1 {
